@@ -13,7 +13,7 @@ impl IndexBuilder for PostgresQueryBuilder {
                 sql,
                 "CONSTRAINT {}{}{} ",
                 self.quote().left(),
-                name,
+                Alias::new(name).quoted(self.quote()),
                 self.quote().right()
             )
             .unwrap();
@@ -51,7 +51,7 @@ impl IndexBuilder for PostgresQueryBuilder {
                 sql,
                 "{}{}{}",
                 self.quote().left(),
-                name,
+                Alias::new(name).quoted(self.quote()),
                 self.quote().right()
             )
             .unwrap();
@@ -108,7 +108,7 @@ impl IndexBuilder for PostgresQueryBuilder {
                 sql,
                 "{}{}{}",
                 self.quote().left(),
-                name,
+                Alias::new(name).quoted(self.quote()),
                 self.quote().right()
             )
             .unwrap();
